@@ -8,6 +8,7 @@ timestamp-less rows, all interleavings of Add with ticker and trigger passes).
 For overlapping (sliding) windows a late row re-delivers every open triggered window that contains it.
 -/
 import SsqlVerif.Proofs.WatermarkBound
+import SsqlVerif.Proofs.WatermarkSources
 import SsqlVerif.Proofs.TumblingHist
 import SsqlVerif.Proofs.SlidingLate
 import SsqlVerif.Generated.Facts
@@ -45,6 +46,38 @@ theorem tumbling_no_early_fire (size ooo lateness : Int) (hs : 0 < size) (ops : 
   have hoo : (run (init size ooo lateness) ops).1.wm.maxOOO = ooo := by rw [run_maxOOO]; rfl
   rw [hoo] at hle
   exact ⟨m, by simpa using hw.2 m hm, by omega⟩
+
+/-- **No early firing, every history** (idle ticks and far-future rows included).  Every delivered result
+(first firing or late update) of an interval ending at `e.stop` is backed by an event the history ingested
+*and the far-future guard accepted* with timestamp at least `e.stop + MAXOUTOFORDERNESS`, or by a tick at
+which the idle timeout had elapsed, at a wall-clock reading of at least `e.stop + MAXOUTOFORDERNESS`.
+The statement holds for every op list, hence for every prefix of a history: the backing event or tick
+precedes the delivery (`tumbling_no_early_fire_prefix`). -/
+theorem tumbling_no_early_fire_full (size ooo lateness : Int) (hs : 0 < size) (ops : List Op) (hok : OpsOk ops) :
+    ∀ e ∈ (run (init size ooo lateness) ops).2,
+      (∃ m ∈ accepted ooo Facts.window_maxFutureSlack ops, e.stop + ooo ≤ m) ∨
+      (∃ n ∈ idleNows ops, e.stop + ooo ≤ n) := by
+  intro e he
+  obtain ⟨_, hf⟩ := tumbling_goodF size ooo lateness hs ops hok
+  obtain ⟨y, hy, hey⟩ := no_early _ _ hf e he
+  have hb := run_backed (init size ooo lateness) ops [] [] ⟨(by intro c h; cases h), (by intro m h; cases h)⟩
+  have hoo : (run (init size ooo lateness) ops).1.wm.maxOOO = ooo := by rw [run_maxOOO]; rfl
+  have hsl : (init size ooo lateness).wm.slack = Facts.window_maxFutureSlack := rfl
+  rw [List.nil_append, List.nil_append, hsl] at hb
+  rcases hb.cur y hy with ⟨m, hm, hle⟩ | ⟨n, hn, hle⟩
+  · rw [hoo] at hle; exact Or.inl ⟨m, hm, by omega⟩
+  · rw [hoo] at hle; exact Or.inr ⟨n, hn, by omega⟩
+
+theorem tumbling_no_early_fire_prefix (size ooo lateness : Int) (hs : 0 < size) (pre post : List Op)
+    (hok : OpsOk (pre ++ post)) :
+    ∀ e ∈ (run (init size ooo lateness) pre).2,
+      (∃ m ∈ accepted ooo Facts.window_maxFutureSlack pre, e.stop + ooo ≤ m) ∨
+      (∃ n ∈ idleNows pre, e.stop + ooo ≤ n) :=
+  tumbling_no_early_fire_full size ooo lateness hs pre (fun op h => hok op (List.mem_append_left _ h))
+
+/-- a refused (far-future) row is not a source, an accepted one is; an idle tick is a source -/
+example : accepted 5 Facts.window_maxFutureSlack [.add ⟨1, 2000000000000000⟩ 1000, .add ⟨2, 1030⟩ 1000, .tick true 77, .tick false 88] = [1030]
+    ∧ idleNows [.add ⟨1, 2000000000000000⟩ 1000, .add ⟨2, 1030⟩ 1000, .tick true 77, .tick false 88] = [77] := by decide
 
 /-- **Discarded only if late.** -/
 theorem tumbling_drop_only_if_late (s : TW) (r : Row) (now : Int) (h : fate s r now = .drop) :
@@ -132,6 +165,22 @@ theorem sliding_no_early_fire (size slide ooo : Int) (hs : 0 < size) (hl : 0 < s
     have h2 := (hh.hshape e he).2.1
     exact ⟨y, hy, by omega⟩
 
+/-- the same with the watermark traced back to its sources, for every history (idle ticks, far-future rows) -/
+theorem sliding_no_early_fire_full (size slide ooo : Int) (hs : 0 < size) (hl : 0 < slide) (ops : List Op)
+    (hok : ∀ op ∈ ops, OpOk op) :
+    ∀ e ∈ (run (init size slide ooo) ops).2,
+      (∃ m ∈ accepted ooo Facts.window_maxFutureSlack ops, e.stop + ooo ≤ m) ∨
+      (∃ n ∈ idleNows ops, e.stop + ooo ≤ n) := by
+  intro e he
+  obtain ⟨y, hy, hey⟩ := sliding_no_early_fire size slide ooo hs hl ops hok e he
+  have hb := run_backed (init size slide ooo) ops [] [] ⟨(by intro c h; cases h), (by intro m h; cases h)⟩
+  have hsl : (init size slide ooo).wm.slack = Facts.window_maxFutureSlack := rfl
+  have hoo : (init size slide ooo).wm.maxOOO = ooo := rfl
+  rw [List.nil_append, List.nil_append, hsl, hoo] at hb
+  rcases hb.1.cur y hy with ⟨m, hm, hle⟩ | ⟨n, hn, hle⟩
+  · rw [hb.2] at hle; exact Or.inl ⟨m, hm, by omega⟩
+  · rw [hb.2] at hle; exact Or.inr ⟨n, hn, by omega⟩
+
 /-- **Sliding late update (ALLOWEDLATENESS > 0).** Every result an Add produces is the re-delivery of
 an open triggered window that contains the (late) row — same interval, the window's previous
 contents first, then rows of the interval not yet in them, the late row included — … -/
@@ -168,6 +217,21 @@ theorem session_no_early_delivery (timeout ooo lateness : Int) (ht : 0 < timeout
   obtain ⟨m, hm, hle⟩ := hw.1 y hy
   rw [hw.2.2] at hle
   exact ⟨m, by simpa using hw.2.1 m hm, by simp only [init] at hle; omega⟩
+
+/-- every history: idle ticks and far-future rows included -/
+theorem session_no_early_delivery_full (timeout ooo lateness : Int) (ht : 0 < timeout) (ops : List Op) :
+    ∀ e ∈ (run (init timeout ooo lateness) ops).2, e.late = false →
+      (∃ m ∈ accepted ooo Facts.window_maxFutureSlack ops, e.stop + ooo ≤ m) ∨
+      (∃ n ∈ idleNows ops, e.stop + ooo ≤ n) := by
+  intro e he hl
+  obtain ⟨_, _, y, hy, hey⟩ := run_firsts (init timeout ooo lateness) ops (inv_init timeout ooo lateness ht) e he hl
+  have hb := run_backed (init timeout ooo lateness) ops [] [] ⟨(by intro c h; cases h), (by intro m h; cases h)⟩
+  have hsl : (init timeout ooo lateness).wm.slack = Facts.window_maxFutureSlack := rfl
+  have hoo : (init timeout ooo lateness).wm.maxOOO = ooo := rfl
+  rw [List.nil_append, List.nil_append, hsl, hoo] at hb
+  rcases hb.1.cur y hy with ⟨m, hm, hle⟩ | ⟨n, hn, hle⟩
+  · rw [hb.2] at hle; exact Or.inl ⟨m, hm, by omega⟩
+  · rw [hb.2] at hle; exact Or.inr ⟨n, hn, by omega⟩
 
 theorem session_drop_only_if_late (w : SWin) (k : Key) (r : Row) (now : Int) (h : fate w k r now = .lateDrop) :
     lateNow w r now = true := by
